@@ -192,9 +192,10 @@ class RangeVal:
 
 
 class Struct:
-    def __init__(self, name, fields=None):
+    def __init__(self, name, fields=None, track=None):
         self.name = name
         self.f = fields if fields is not None else {}
+        self.track = track     # when set, field assignments are recorded as effects on "<track>.<field>"
 
     def copy(self):
         return Struct(self.name, {k: (v.copy() if hasattr(v, "copy") else v) for k, v in self.f.items()})
@@ -381,7 +382,7 @@ class Interp:
                 return Container(name, "scal")
             n = ty.get("n")
             if n in self.F.records:
-                st = Struct(n)
+                st = Struct(n, track=name if symbolic else None)
                 for f in self.F.records[n]["fields"]:
                     st.f[f["name"]] = self.make_value(name + "." + f["name"], f["ty"], symbolic)
                 return st
@@ -793,6 +794,13 @@ class Interp:
         if ns == "std":
             return self.std_call(e, env, c)
         fid = c.get("fid")
+        if op == "=" and "obj" in e and fid not in self.F.by_fid and len(e.get("args", [])) == 1:
+            tgt = self.evl(e["obj"], env)
+            tv = self.load(tgt) if isinstance(tgt, Ref) else tgt
+            src = self.ev(e["args"][0], env)
+            if isinstance(tv, Struct) and isinstance(src, Struct):
+                self.assign(tv, src, e)
+                return tv
         if fid in self.F.lambda_by_fid:
             return self.call_lambda(fid, e, env)
         if fid in self.F.by_fid:
@@ -1205,7 +1213,13 @@ class Interp:
                 r.e = [list(x) for x in v.e]
                 return
             if isinstance(r, Struct) and isinstance(v, Struct):
-                r.f = v.copy().f
+                new = v.copy().f
+                for k2, x in new.items():
+                    if isinstance(x, Struct) and isinstance(r.f.get(k2), Struct):
+                        x.track = r.f[k2].track
+                    if r.track and not isinstance(x, (Struct, Container)):
+                        self.record(r.track + "." + k2, (), "=", x, node)
+                r.f = new
                 return
             raise Unsupported("assignment to non-lvalue %r (line %s)" % (r, node.get("line") if isinstance(node, dict) else None))
         k = r.kind
@@ -1227,6 +1241,8 @@ class Interp:
         if k == "field":
             if isinstance(r.struct, _HeapStruct):
                 self.record(r.name, (), accumulate or "=", v, node, delta)
+            elif getattr(r.struct, "track", None):
+                self.record(r.struct.track + "." + r.name, (), accumulate or "=", v, node, delta)
             r.struct.f[r.name] = v
             return
         if k == "row":
